@@ -651,10 +651,11 @@ impl E {
             }
             E::InTuples(cols, rows) => {
                 let t = Expr::tuple(cols.iter().map(|e| e.build(d)).collect::<Vec<_>>());
-                if self.entry() % 2 == 0 {
-                    t.in_tuples(rows.clone())
-                } else {
-                    SimpleExpr::from(t).in_tuples(rows.clone())
+                match self.entry() % 3 {
+                    0 => t.in_tuples(rows.clone()),
+                    1 => SimpleExpr::from(t).in_tuples(rows.clone()),
+                    // the general IN with row constructors as list elements (one element included)
+                    _ => t.is_in(rows.iter().map(|(x, y)| SimpleExpr::from(Expr::tuple([Expr::val(*x).into(), Expr::val(*y).into()])))),
                 }
             }
             E::Keyword(k) => match k % 3 {
